@@ -4,21 +4,29 @@ import multiprocessing
 import wire
 from curtsies.formatstring import FmtStr, fmtstr
 from curtsies import escseqparse
-from props.common import reply_fmt, guarded
+from props.common import reply_fmt
 
 PROP = "C17"
 MODULES = ["Curtsies.Properties.C17"]
+LEVEL_NOTE = ("trusted: Lean kernel + propext/Classical.choice/Quot.sound, the hand-written model and specs, extract.py, the wire "
+              "codec; CPython (re, int, str) is modelled not verified. Clause 4 (numeric CSI) is proved for non-empty parameters and "
+              "strings that either have no 8-bit sequence or contain ESC[ ; the rest is open finding D28 (witness theorems)")
 RULE = ("exhaustive: every string of length <=5 (quick) / <=6 (thorough) over the 13 symbols "
         "{a \\n ESC 0x9b [ 3 1 ; space m A ? ~} through from_str (model tie + oracle), every string of length <=4 also through "
         "peel_off_esc_code, parse, remove_ansi and the scanner tie; every string <=5 over {a ESC 0x9b [ U+0663 1 ; m} (a non-ASCII "
         "decimal digit: regression guard for the \\d fix); grammar-generated numeric-CSI strings; real-world samples; seeded random "
-        "strings over a wider alphabet. non-trivial = the string contains ESC or 0x9b")
+        "strings over a wider alphabet; ESC[<n>m for n = 0..110 alone and after an active format; parameters of 4300/4301 digits "
+        "(CPython int() limit); lone-surrogate strings (oracle only: not representable in the model). "
+        "non-trivial = the string contains ESC or 0x9b")
 ASSUMPTIONS = ["str is a sequence of code points (lone surrogates excluded from generators)",
                "CPython `re` semantics for the three regexes (lazy front = earliest match, greedy classes; DOTALL) are modelled by hand; "
                "the tie validates the hand model on every run",
                "'part of an escape sequence' is decided by an ECMA-48/ECMA-35 scanner (harness: esc_marks; Lean: Spec/EscScan.lean), "
                "written independently of the library's regexes",
-               "fmtstr(s, **atts) is modelled for attribute dicts parse_args accepts"]
+               "fmtstr(s, **atts) is modelled for attribute dicts parse_args accepts",
+               "CPython's int(str) digit limit (sys.get_int_max_str_digits(), dumped into Generated/EscParse.lean every run) is the "
+               "model parameter md; the theorems hold for every md",
+               "lone surrogates are exercised by the oracle only (the model's Text cannot hold them)"]
 
 ALPHA = ["a", "\n", "\x1b", "\x9b", "[", "3", "1", ";", " ", "m", "A", "?", "~"]
 ALPHA_U = ["a", "\x1b", "\x9b", "[", "٣", "1", ";", "m"]
@@ -33,8 +41,15 @@ SAMPLES = [
     "\x9b31mx\x9bm", "\x9b31mx\x1b[0m", "a\x1b[31", "\x1b[31;mtrailing", "\x1b[;31mleading", "\x1b[;m", "\x1b[ q", "\x1b[1 qbar",
     "\x1b[31m\x1b[1m\x1b[4mnested\x1b[0m", "\x1b\x1b[31mdouble", "\x1b[\x1b[31mx", "\x1b[31\x1b[32mx", "tab\there\x1b[5Cright", "\x1b[10;20r",
     "\x1b[38mx", "\x1b[99mx", "\x1b[1mbold\x1b[99munsupported\x1b[0m", "\x1b[٣mx", "\x1b[1٣mx", "٣\x1b[3m٣",
+    "\x1b[31mX\x1b[" + "1" * 4301 + "AY", "\x1b[31mX\x1b[" + "1" * 4300 + "AY", "\x1b[" + "0" * 4301 + "mZ", "\x1b[1;" + "0" * 4299 + "4mZ",
+    "\x9b31mx", "\x9b2Ax\x9bK", "\x1b[;5Hx", "\x1b[1;;3Ax", "\x9b;5Hx\x1b[1m", "\x9b31mx\x1b[1my", "\x1b[1;mx\x1b[;5Hy", "\x1b[38m\x1b[;5Hy",
+    "\x1b[01;31mzero\x1b[39;49;00m", "\x1b[000m",
     "snow☃man \x1b[32m\U0001F600\x1b[m wideＡ", "é\x1b[4mcombining\x1b[24m", "\x7f\x00\x1b[31m\x00\x1b[0m", "\x1b[31m\n\x1b[0m\n",
-]
+] + ["\x1b[%dmx" % n for n in range(0, 111)] + ["\x1b[1;31;44ma\x1b[%dmb" % n for n in range(0, 111)]
+
+# "every str" includes strings with lone surrogates; the model's Text cannot hold them: oracle only
+SURROGATES = ["\ud800", "a\udc00b", "\x1b[31m\ud83d\x1b[m", "\ud800\x1b[1mq\x1b[0m\udfff", "\x1b[\ud800m", "\x1b[3\udc00mx", "\x9b\ud800m",
+              "\x1b\ud800", "\x1b[38;5;1m\ud800x"]
 
 
 # ------------------------------------------------------------------------------------------------
@@ -90,41 +105,59 @@ def is_subseq(a, b):
     return all(ch in it for ch in a)
 
 
-def numeric_strip(s):
-    """If s is (text free of ESC/0x9b | ESC [ (d+(;d+)*)? I* F)* return s without the sequences, else None."""
+def numeric_scan(s):
+    """Wide numeric-CSI grammar of the statement: (text free of ESC/0x9b | (ESC [ | 0x9b) d*(;d*)* I* F)*.
+    -> None if s is not in the grammar, else (s without the sequences, has_8bit_sequence, has_empty_parameter)."""
     out, i, n = [], 0, len(s)
+    has8 = empty = False
     while i < n:
         ch = s[i]
         if ch == "\x9b":
-            return None
-        if ch != "\x1b":
+            i += 1
+            has8 = True
+        elif ch == "\x1b":
+            if i + 1 >= n or s[i + 1] != "[":
+                return None
+            i += 2
+        else:
             out.append(ch); i += 1
             continue
-        if i + 1 >= n or s[i + 1] != "[":
-            return None
-        i += 2
-        first = True
-        while True:                      # (d+(;d+)*)?
-            j = i
-            while j < n and "0" <= s[j] <= "9":
-                j += 1
-            if j == i:
-                if first:
-                    break
-                return None              # ';' not followed by a digit
-            i = j
-            first = False
-            if i < n and s[i] == ";":
-                i += 1
-                continue
-            break
+        j = i
+        while j < n and ("0" <= s[j] <= "9" or s[j] == ";"):
+            j += 1
+        params = s[i:j]
+        if params and "" in params.split(";"):
+            empty = True
+        i = j
         while i < n and 0x20 <= ord(s[i]) <= 0x2f:
             i += 1
         if i < n and 0x40 <= ord(s[i]) <= 0x7e:
             i += 1
         else:
             return None
-    return "".join(out)
+    return "".join(out), has8, empty
+
+
+def numeric_strip(s):
+    r = numeric_scan(s)
+    return None if r is None else r[0]
+
+
+def aligned(s, marks, text):
+    """positional form of sub+keeps: text is s with some characters deleted, every deleted position being one the
+    scanner claims for an escape sequence (NFA over the positions of text reachable after each character of s)"""
+    states = {0}
+    for ch, m in zip(s, marks):
+        new = set()
+        for j in states:
+            if m:
+                new.add(j)                      # a claimed character may be deleted
+            if j < len(text) and text[j] == ch:
+                new.add(j + 1)                  # any character may be kept
+        if not new:
+            return False
+        states = new
+    return len(text) in states
 
 
 def oracle(s):
@@ -137,10 +170,14 @@ def oracle(s):
         g = fmtstr(s)
     except Exception as e:  # noqa: BLE001
         return "raises: fmtstr raised %s" % type(e).__name__
-    chunks = wire.fmt_chunks(f)
-    if wire.fmt_chunks(g) != chunks:
+    try:
+        chunks = [(c.s, dict(c.atts)) for c in f.chunks]
+        gchunks = [(c.s, dict(c.atts)) for c in g.chunks]
+        text = f.s
+    except Exception as e:  # noqa: BLE001
+        return "raises: reading the result raised %s" % type(e).__name__
+    if gchunks != chunks:
         return "fmtstr(s) differs from FmtStr.from_str(s)"
-    text = f.s
     if text != "".join(t for t, _ in chunks):
         return ".s is not the concatenation of the runs"
     marks = esc_marks(s)
@@ -152,10 +189,23 @@ def oracle(s):
     ordinary = [ch for ch, m in zip(s, marks) if not m]
     if not is_subseq(ordinary, text):
         return "keeps: a character that is not part of an escape sequence was lost: ordinary=%r text=%r" % ("".join(ordinary), text)
+    if not aligned(s, marks, text):
+        return "positional: the text is not s with only escape-sequence characters deleted: text=%r" % text
     want = numeric_strip(s)
     if want is not None and text != want:
         return "numeric: numeric CSI sequences only, but text is %r, expected %r" % (text, want)
     return None
+
+
+def guarded(fn):
+    """run the real code; result/exception in the driver's reply syntax. A result the wire cannot express (an
+    unexpected token/dict shape) becomes a reply no driver line can equal: a disagreement, never a crash."""
+    try:
+        return fn()
+    except wire.Unencodable as e:
+        return "UNENCODABLE %r" % (e.args,)
+    except Exception as e:  # noqa: BLE001 - exception kinds are part of the compared behaviour
+        return wire.exc_kind(e)
 
 
 # ------------------------------------------------------------------------------------------------
@@ -298,6 +348,21 @@ def numeric_cases(rng, n):
     return out
 
 
+def wide_numeric_cases(rng, n):
+    """the wide grammar: 7-/8-bit introducers, empty parameters (D28 shapes and their neighbours)"""
+    out = []
+    for _ in range(n):
+        parts = []
+        for _ in range(rng.randint(1, 4)):
+            if rng.random() < 0.35:
+                parts.append(rng.choice(["", "a", "x\ny", "0", ";", "m"]))
+            else:
+                ps = [rng.choice(["", "", "1", "5", "31", "38", "007"]) for _ in range(rng.randint(0, 3))]
+                parts.append(rng.choice(["\x1b[", "\x1b[", "\x9b"]) + ";".join(ps) + rng.choice(["", "", " "]) + rng.choice("mAHJK"))
+        out.append("".join(parts))
+    return out
+
+
 def random_cases(rng, n):
     alpha = ALPHA + ["0", "9", "4", "H", "J", "K", "@", "_", "`", "/", "!", "\r", "\t", "٣", "１", "☃", "\x7f", "\x00", "]", "\\", "<", ":", "\x9c"]
     return ["".join(rng.choice(alpha) for _ in range(rng.randint(0, 24))) for _ in range(n)]
@@ -324,6 +389,16 @@ def token_cases(rng, n):
 
 
 def footprint(case, what):
+    """D28: clause 4 fails, and the string is in the wide numeric grammar with (a) an 8-bit sequence and no "ESC[" at all
+    (fast path returns it verbatim) or (b) a sequence with an empty parameter."""
+    if not what.startswith("numeric:"):
+        return None
+    r = numeric_scan(case)
+    if r is None:
+        return None
+    _, has8, empty = r
+    if (has8 and "\x1b[" not in case) or empty:
+        return "D28"
     return None
 
 
@@ -334,6 +409,7 @@ def small_cases(ctx):
     for length in range(0, 5):
         cases += list(strings_of(ALPHA_U, "", length))
     cases += numeric_cases(ctx.rng, 4000 if ctx.thorough else 1000)
+    cases += wide_numeric_cases(ctx.rng, 2000 if ctx.thorough else 600)
     cases += random_cases(ctx.rng, 20000 if ctx.thorough else 3000)
     cases += token_cases(ctx.rng, 40000 if ctx.thorough else 6000)
     return cases
@@ -358,6 +434,11 @@ def check(ctx):
         if w:
             ctx.violation(w, s, footprint(s, w))
     ctx.note("strings in the numeric-CSI grammar with at least one sequence among the small cases: %d" % n_numeric)
+    for s in SURROGATES:
+        w = oracle(s)
+        ctx.count(s, nontrivial=True, tag="surrogate(oracle only)")
+        if w:
+            ctx.violation(w, s, footprint(s, w))
     # 2. exhaustive enumerations through from_str (sharded over 16 processes)
     run_enumeration(ctx, "C17/fromstr", ALPHA, 6 if ctx.thorough else 5, "exh13")
     run_enumeration(ctx, "C17/fromstr", ALPHA_U, 6 if ctx.thorough else 5, "exh-nonascii-digit")
